@@ -172,13 +172,25 @@ def one(ctx, cg, cgsat, props, captured, cid, spec, A):
         if true_count is not None and aname in ("none", "partial0", "contradict-buf", "complete-consistent"):
             approx(ctx, cgsat, captured, spec, A, asg, sp, true_count, det)
     # ---------------------------------------------------------------- signal_probability
-    if not A.bbs and A.is_acyclic() and not A.has_x():
+    if not A.bbs and not A.has_x():
         import networkx as nx
         g = A.digraph()
+        if A.is_acyclic():
+            coneok = nodes
+            Aeval = A
+        else:
+            # cyclic circuit: only nodes whose own cone is acyclic have a defined probability; evaluate them on the acyclic part
+            cyc_nodes = {n for scc in nx.strongly_connected_components(g) if len(scc) > 1 or any(g.has_edge(n, n) for n in scc) for n in scc}
+            coneok = [n for n in nodes if not (({n} | nx.ancestors(g, n)) & cyc_nodes)]
+            keep = set()
+            for n in coneok:
+                keep |= {n} | nx.ancestors(g, n)
+            sp_ = A.spec()
+            Aeval = Net.from_spec({"name": sp_["name"], "nodes": [x for x in sp_["nodes"] if x[0] in keep], "edges": [e for e in sp_["edges"] if e[0] in keep and e[1] in keep], "bbs": {}})
         S = Sem()
-        env = {i: S.var("v!" + i) for i in A.free()}
-        fv = S.fn(A, env)
-        cand = nodes if (not ctx.quick or len(nodes) <= 8) else sorted(rng.sample(nodes, 8))
+        env = {i: S.var("v!" + i) for i in Aeval.free()}
+        fv = S.fn(Aeval, env) if coneok else {}
+        cand = coneok if (not ctx.quick or len(coneok) <= 8) else sorted(rng.sample(coneok, 8))
         from cgv.props.C11 import count_models
         for n in cand:
             spn = sorted(({n} | nx.ancestors(g, n)) & A.startpoints())
